@@ -25,6 +25,10 @@ RANGE_VALUES = {
     'datetime-local': ('2020-02-29T12:00', '2021-02-29T12:00', '2020-01-01T24:00', '2020-01-01 12:00', '',
                        '2020-01-01T00:00', '10000-01-01T00:00'),
 }
+HUGE = '9' * 4400
+for _t, _v in (('date', HUGE + '-01-01'), ('month', HUGE + '-01'), ('week', HUGE + '-W01'), ('datetime-local', HUGE + '-01-01T00:00'),
+               ('number', HUGE), ('number', '-' + HUGE + '.5'), ('range', HUGE)):
+    RANGE_VALUES[_t] = RANGE_VALUES[_t] + (_v,)
 ARBITRARY = ('', ' ', 'x', 'ltr', 'rtl', 'auto', 'AUTO', 'LTR', 'true', 'false', 'TRUE', '0', '-', 'é', '\n', 'a b',
              'en', 'de-DE', 'xx-', '-x', '*', 'content-language', 'Content-Language')
 
